@@ -5,6 +5,7 @@ import (
 	"errors"
 	"fmt"
 	"os"
+	"path/filepath"
 	"runtime"
 	"sort"
 
@@ -248,17 +249,19 @@ func valStr(v []byte) string {
 // Session: a database under test in lock-step with the model.
 
 type Session struct {
+	Spell    bool // every Open spells DirPath differently (trailing separator, /., /./, //)
+	nOpen    int
 	NoStates bool // large models: do not hash the mapping after every mutation
-	Dir   string
-	Cfg   Config
-	DB    *kv.DB
-	M     *Model
-	Res   *Result
-	IO    *mon.IOLog
-	Log   []string
-	Step  int
-	Prop  string
-	Extra map[string]string // extra features for violations
+	Dir      string
+	Cfg      Config
+	DB       *kv.DB
+	M        *Model
+	Res      *Result
+	IO       *mon.IOLog
+	Log      []string
+	Step     int
+	Prop     string
+	Extra    map[string]string // extra features for violations
 	// States keeps the hash of every model state reached (distinct states evidence).
 	States map[string]bool
 	// KeyBuf/ValBuf: when non-nil the session passes these reused buffers to the engine (C14/C15).
@@ -310,7 +313,17 @@ func (s *Session) tailLog(n int) []string {
 func (s *Session) Open() bool {
 	var db *kv.DB
 	var err error
-	pv, st := Safe(func() { db, err = kv.Open(s.Cfg.Options(s.Dir)) })
+	dir := s.Dir
+	if s.Spell {
+		// the same directory, spelled differently by every process that opens it
+		sp := []string{s.Dir, s.Dir + "/", s.Dir + "/.", filepath.Dir(s.Dir) + "/./" + filepath.Base(s.Dir), s.Dir + "//"}
+		dir = sp[s.nOpen%len(sp)]
+		if dir != s.Dir {
+			s.Res.Add("opens_under_another_spelling_of_the_path", 1)
+		}
+	}
+	s.nOpen++
+	pv, st := Safe(func() { db, err = kv.Open(s.Cfg.Options(dir)) })
 	if pv != nil {
 		s.Panicked = true
 		s.Res.Violate(fmt.Sprintf("step %d: Open panicked: %v", s.Step, pv), s.feat("open-panic", "panic", firstLine(fmt.Sprint(pv))), map[string]any{"config": s.Cfg, "ops": s.tailLog(60), "stack": st})
